@@ -84,9 +84,14 @@ pub fn store_config(max_records: usize, cache: usize) -> NodeRecordStoreConfig {
 impl World {
     /// fresh node over the current (in-memory) directory content
     pub fn new(max_records: usize, cache: usize) -> World {
+        Self::new_with(max_records, cache, crate::driver::MAX_PACKET_SIZE)
+    }
+    pub fn new_with(max_records: usize, cache: usize, max_value_bytes: usize) -> World {
         let (ev_tx, ev_rx) = mpsc::channel::<NetworkEvent>(100);
         let (cmd_tx, cmd_rx) = mpsc::channel::<LocalSwarmCmd>(100);
-        let store = NodeRecordStore::with_config(self_peer(), store_config(max_records, cache), ev_tx.clone(), cmd_tx);
+        let mut cfg = store_config(max_records, cache);
+        cfg.max_value_bytes = max_value_bytes;
+        let store = NodeRecordStore::with_config(self_peer(), cfg, ev_tx.clone(), cmd_tx);
         let fetcher = ReplicationFetcher::new(self_peer(), ev_tx.clone());
         World { driver: SwarmDriver::new(UnifiedRecordStore::Node(store), fetcher, ev_tx), cmd_rx, event_rx: ev_rx }
     }
